@@ -22,7 +22,7 @@ def bodies(depth, rnd=None):
     """all bodies (lists of lines) of at most 2 statements with nesting depth <= depth"""
     stmts = [[x] for x in LEAVES[:5]]
     if depth > 0:
-        inner = [[x] for x in LEAVES[:3]] + [[LEAVES[0], LEAVES[3]]]
+        inner = [[x] for x in LEAVES[:3]] + [[LEAVES[0], LEAVES[3]], [LEAVES[3], LEAVES[0]]]
         for b in inner:
             stmts.append(["Block: B"] + _ind(b + ["End block"]))
             stmts.append(["Block: B"] + _ind(b + ["0.2 End block"]))
@@ -86,6 +86,14 @@ CURATED = [
     ["Base: s", "Block: B", "    Watch: In > 2 L/h", "        Mark: w", "    Alarm: In > 2 L/h", "        Mark: a", "        End block",
      "    Wait: 3s", "Mark: after", "Wait: 1s", ""],
     ["Base: s", "Alarm: In > 2 L/h", "    Block: AB", "        Mark: ab", "        End block", "    Mark: a2", "Wait: 2s", "Mark: m", ""],
+    ["Base: s", "Alarm: In > 2 L/h", "    Wait: 0.5s", "    Mark: aw", "Wait: 4s", ""],
+    ["Base: s", "Macro: W", "    Wait: 0.4s", "    Mark: mw", "Call macro: W", "Call macro: W", "Mark: end", ""],
+    ["Base: s", "Block: A", "    Watch: In > 2 L/h", "        Block: C", "            Mark: c1", "            End block", "    Block: B",
+     "        Wait: 0.6s", "        End block", "    Wait: 0.6s", "    End block", "Mark: done", ""],
+    ["Base: s", "Block: A", "    Alarm: In > 2 L/h", "        Block: C", "            Mark: c1", "            End block", "    Block: B",
+     "        Wait: 0.4s", "        End block", "    Block: B2", "        Wait: 0.4s", "        End block", "    End block", "Mark: done", ""],
+    ["Base: s", "Macro: M", "    Mark: A", "    Wait: 0.3s", "    Mark: B", "Watch: In > 2 L/h", "    Call macro: M", "Call macro: M",
+     "Mark: X", "Call macro: M", "Mark: Y", ""],
     ["Base: s", "Pause: 0.3s", "Mark: p", "Hold: 0.2s", "Mark: h", "Block: B", "    0.2 Mark: inb", "    End block", ""],
 ]
 
@@ -102,4 +110,41 @@ def trajectories(n, rnd):
         out.append(tr[:n])
     out.append([3.0] * n)
     out.append([0.0] * 6 + [3.0] * (n - 6))
+    return out
+
+
+def _rand_body(rnd, depth, in_block, counter):
+    """a random body of 1-3 statements; blocks usually end themselves"""
+    out = []
+    for _ in range(rnd.randint(1, 3)):
+        r = rnd.random()
+        counter[0] += 1
+        k = counter[0]
+        thr = rnd.choice(["", "", "", "0.2 ", "0.5 "])
+        if depth <= 0 or r < 0.45:
+            out.append(thr + rnd.choice([f"Mark: m{k}", f"Mark: m{k}", "Short", "Long", "Wait: 0.2s", "Wait: 0.4s", f"Set1: {k}"]))
+        elif r < 0.65:
+            body = _rand_body(rnd, depth - 1, True, counter)
+            if rnd.random() < 0.85:
+                body.append(rnd.choice(["End block", "End block", "0.3 End block", "End blocks"]))
+            out += [thr + f"Block: B{k}"] + _ind(body)
+        elif r < 0.8:
+            out += [thr + "Watch: " + rnd.choice(COND)] + _ind(_rand_body(rnd, depth - 1, in_block, counter))
+        elif r < 0.92:
+            out += [thr + "Alarm: " + rnd.choice(COND)] + _ind(_rand_body(rnd, depth - 1, in_block, counter))
+        else:
+            name = f"M{k}"
+            out += [f"Macro: {name}"] + _ind(_rand_body(rnd, depth - 1, False, counter)) + [f"Call macro: {name}"]
+            if rnd.random() < 0.5:
+                out.append(f"Call macro: {name}")
+    if in_block and rnd.random() < 0.1:
+        out.append("End block")
+    return out
+
+
+def random_programs(n, seed):
+    rnd = random.Random(seed * 7919 + 13)
+    out = []
+    for _ in range(n):
+        out.append(["Base: s"] + _rand_body(rnd, 3, False, [0]) + ["Wait: 1s", "Mark: last", ""])
     return out
